@@ -49,3 +49,19 @@ def c09(ctx):
     ctx.assume(EXT_ASSUME)
     return ctx.finish(explanation="panic-edge inventory over MIR of msi and msi_ffi, reachability from every exported function; "
                       "each site discharged by a guard rule, justified, or reported")
+
+
+@prop("C04")
+def c04(ctx):
+    from .rules import eam
+    eam.run(ctx)
+    return ctx.finish(explanation="interprocedural error-after-mutation path rule over the CFGs of the 11 entry functions")
+
+
+@prop("C16")
+def c16(ctx):
+    from .rules import cap
+    cap.run(ctx)
+    cap.cap2(ctx)
+    return ctx.finish(explanation="capability closure over the whole-program call graph (msi+cfb) with slot-gated dyn dispatch; "
+                      "every function in the closure is an obligation 'contains no write to the medium'")
